@@ -102,6 +102,7 @@ func verifHarness_C01_routing() {
 	if verifParam("late", 0) > 0 {
 		e.lateFrom = nTgt - 1 // the last target connects by an explicit action, possibly after tasks for it arrived
 	}
+	e.idleAction = verifParam("idle", 0) == 1
 	e.startAll()
 	for _, s := range e.sources {
 		s.onAck = c01OnAck
